@@ -580,6 +580,23 @@ def rewriteAlias (st : St) (toks : List String) : List String :=
       | (_, v) :: _, some (n, _) => ["sp", slot, "set", "8", unitsStr n, "8", unitsStr v]
       | _, _ => ["sp", slot, "size"]
     | none => ["sp", slot, "size"]
+  | ["psp", slot, "aidx", what, i, j] =>   -- name = the i-th pair's name, value = the j-th pair's value (indices modulo the size)
+    let l := st.params[slot.toNat!]!.list
+    if l.isEmpty then ["psp", slot, "size"]
+    else
+      let n := (l[i.toNat! % l.length]!).1
+      let v := (l[j.toNat! % l.length]!).2
+      if what == "del" || what == "remove" then ["psp", slot, what, "8", unitsStr n] else ["psp", slot, what, "8", unitsStr n, "8", unitsStr v]
+  | ["sp", slot, "aidx", what, i, j] =>
+    match (st.objs[slot.toNat!]!.searchParams).sp with
+    | some p =>
+      let l := p.list
+      if l.isEmpty then ["sp", slot, "size"]
+      else
+        let n := (l[i.toNat! % l.length]!).1
+        let v := (l[j.toNat! % l.length]!).2
+        if what == "del" || what == "remove" then ["sp", slot, what, "8", unitsStr n] else ["sp", slot, what, "8", unitsStr n, "8", unitsStr v]
+    | none => ["sp", slot, "size"]
   | ["psp", slot, "aset"] =>
     match st.params[slot.toNat!]!.list, st.params[slot.toNat!]!.list.getLast? with
     | (n, _) :: _, some (_, v) => ["psp", slot, "set", "8", unitsStr n, "8", unitsStr v]
